@@ -291,6 +291,10 @@ def known_match(ctx, info, stage):
         m = k.get("match", {})
         if "invariant" in m and m["invariant"] != info["invariant"]:
             continue
+        if "profile" in m and json.loads(info["trace"][0]).get("profile") != m["profile"]:
+            continue
+        if "observed_re" in m and not re.search(m["observed_re"], json.dumps(ev.get("runs", []))):
+            continue
         if "op" in m and ev.get("op") not in m["op"]:
             continue
         if "st" in m and not any(r["res"].get("st") in m["st"] for r in ev.get("runs", [])):
@@ -427,31 +431,100 @@ def parse_emission(out):
     return states, events
 
 
+def emission(ctx, st):
+    """States and operation instances of the model.  They depend only on the specification (never
+    on /repo), so the TLC run is cached under /verif/.cache, keyed by the content of spec/ and the cfg."""
+    import hashlib
+    cfgname = st["cfg"] if ctx.tier == "quick" or "cfg_thorough" not in st else st["cfg_thorough"]
+    h = hashlib.sha256()
+    for f in sorted(os.listdir(ctx.spec)):
+        if f.endswith(".tla") or f == cfgname:
+            with open(os.path.join(ctx.spec, f), "rb") as fh:
+                h.update(f.encode() + b"\0" + fh.read())
+    key = h.hexdigest()[:24]
+    cdir = os.path.join(ctx.root, ".cache")
+    cpath = os.path.join(cdir, "emission-%s-%s.json" % (cfgname.replace(".cfg", ""), key))
+    if os.path.exists(cpath) and not os.environ.get("VERIF_NOCACHE"):
+        with open(cpath) as f:
+            c = json.load(f)
+        ctx.mc_runs.append({"config": cfgname, "module": st["module"], "states": c["distinct"], "transitions": c["generated"],
+                            "ok": True, "cached": True, "wall_s": c["wall_s"],
+                            "note": "model run cached (it depends on spec/ only); counts are those of the cached run"})
+        ctx.states += c["distinct"]
+        ctx.transitions += c["generated"]
+        ctx.log("MC %s/%s: %d distinct states, %d generated (cached model run)" % (st["module"], cfgname, c["distinct"], c["generated"]))
+        return c["states"], c["events"]
+    r = stage_mc(ctx, dict(st, kind="mc"))
+    states, events = parse_emission(r["out"])
+    if not states or not events:
+        raise Inconclusive("MC run emitted no states/events")
+    os.makedirs(cdir, exist_ok=True)
+    tmp = cpath + ".tmp%d" % os.getpid()
+    with open(tmp, "w") as f:
+        json.dump({"states": states, "events": events, "distinct": r["distinct"], "generated": r["generated"],
+                   "wall_s": round(r["wall"], 1)}, f)
+    os.replace(tmp, cpath)
+    return states, events
+
+
 def stage_edges(ctx, st):
     """Direction A (DESIGN.md 5.3): TLC enumerates the reachable graph of the abstract database in a
     small scope; its edges (distinct states x operation instances) are executed on the real code
     and the recorded executions are validated by TLC."""
     import random
-    r = stage_mc(ctx, dict(st, kind="mc"))
-    states, events = parse_emission(r["out"])
-    if not states or not events:
-        raise Inconclusive("MC run emitted no states/events")
+    states, events = emission(ctx, st)
     quick = ctx.tier == "quick"
     rng = random.Random(ctx.seed * 7919 + 17)
     ops = st.get("ops")              # restrict to these operation kinds (None = all)
     evs = [e for e in events if ops is None or e["op"] in ops]
+    if st.get("event_re"):
+        evs = [e for e in evs if re.search(st["event_re"], json.dumps(e))]
     reads = [e for e in evs if e["op"] in READ_OPS]
     writes = [e for e in evs if e["op"] not in READ_OPS]
     nstates = st["states"][0] if quick else st["states"][1]
     nreads = st["reads"][0] if quick else st["reads"][1]
     nwrites = st["writes"][0] if quick else st["writes"][1]
-    sel_states = states if nstates <= 0 or nstates >= len(states) else rng.sample(states, nstates)
+    pool = states
+    if st.get("rich_states"):
+        # the states with the most content (documents, indexes): where planner cells are not vacuous
+        pool = sorted(states, key=lambda h: -len(json.dumps(h)))[:st["rich_states"]]
+    sel_states = pool if nstates <= 0 or nstates >= len(pool) else rng.sample(pool, nstates)
+
+    # stratified sampling: operation instances are grouped by shape (criteria structure with the
+    # literals reduced to their kind, sort / window kind), and shapes are drawn uniformly, so that
+    # rare shapes (negation chains, bounds on nil, ...) are as likely to be exercised as common ones
+    def shape(e):
+        t = json.dumps(e.get("q", [])) + "|" + json.dumps(e.get("upd", "")) + "|" + e["op"]
+        t = re.sub(r'\["num", \d+, "[a-z-]+"\]', "N", t)
+        t = re.sub(r'\["str", \[[0-9, ]*\]\]', "S", t)
+        return t
+
+    def buckets(evs_):
+        b = {}
+        for e in evs_:
+            b.setdefault(shape(e), []).append(e)
+        return list(b.values())
+
+    rbuckets, wbuckets = buckets(reads), buckets(writes)
+
+    def draw(bk, k):
+        if k <= 0 or k >= sum(len(x) for x in bk):
+            return [e for x in bk for e in x]
+        out = []
+        order = list(range(len(bk)))
+        while len(out) < k:
+            rng.shuffle(order)
+            for i in order:
+                out.append(rng.choice(bk[i]))
+                if len(out) >= k:
+                    break
+        return out
     inp = os.path.join(ctx.work, "edges-%s.ndjson" % st["name"])
     nh = ne = 0
     with open(inp, "w") as f:
         for hist in sel_states:
-            rs = reads if nreads <= 0 or nreads >= len(reads) else rng.sample(reads, nreads)
-            ws = writes if nwrites <= 0 or nwrites >= len(writes) else rng.sample(writes, nwrites)
+            rs = draw(rbuckets, nreads) if reads else []
+            ws = draw(wbuckets, nwrites) if writes else []
             if rs:
                 f.write(json.dumps({"op": "Reset", "numTable": "general", "timeTable": "general"}) + "\n")
                 for e in hist:
@@ -486,6 +559,7 @@ def stage_edges(ctx, st):
     ctx.evaluations += sj.get("events", 0)
     ctx.extra["tlc_generated_edges_replayed"] = ctx.extra.get("tlc_generated_edges_replayed", 0) + ne
     ctx.extra["model_graph"] = {"distinct_states": len(states), "operation_instances": len(events),
+                                "shapes": len(rbuckets) + len(wbuckets),
                                 "edges": len(states) * len(events),
                                 "exhaustive": (not quick) and nstates <= 0 and nreads <= 0 and nwrites <= 0}
     if traces and len(ctx.samples) < 8:
